@@ -93,6 +93,30 @@ def _work(args):
         }
         if res.error:
             out["time_s"] = res.time_s
+            if res.error.startswith("unsupported:") and con.replay_ is not None and getattr(con, "replay_without_model", False):
+                # The function (as it is now) uses a construct outside the executor's subset, so no obligation could be
+                # generated - by itself that is "undecided".  The contract's model-free witness still runs on the real
+                # code: if it shows a failing input, that is a reproduced violation of the contract's statement (on a tree
+                # where the property holds the witness reproduces nothing and the function stays undecided).
+                try:
+                    code = con.replay_(None, None, None)
+                except Exception:  # noqa: BLE001
+                    code = None
+                if code:
+                    path = os.path.join(REPLAY_DIR, pack.prop_id, f"{_safe(con.qualname)}__unsupported.py")
+                    header = (
+                        f"# replay for property {pack.prop_id}\n# function: {con.key}\n"
+                        f"# the function could not be brought under the verifier ({res.error.splitlines()[0]}); the contract's witness inputs are run on the real code\n"
+                    )
+                    ok, outp = run_snippet(header + code, path)
+                    if ok:
+                        names = "; ".join(nm for nm, _ in con.ensures_)[:400]
+                        out["error"] = None
+                        out["obligations"].append({
+                            "name": f"[not re-verifiable: {res.error.splitlines()[0][:160]}] witness inputs of the contract fail on the real code: {names}",
+                            "kind": "post", "line": 0, "verdict": "refuted", "backend": "replay (no obligation could be generated)", "time_s": 0.0,
+                            "reproduced": True, "replay": path, "replay_output": outp[-1500:], "model": {},
+                        })
             return out
         eng = res.engine
         axioms = eng.class_axioms()
